@@ -2,7 +2,7 @@
     modes) plus discovery entries and error routing: Model.Routing.read_rules / checks_for_entry on the model's
     file vs the entries the real discovery produced and the checks the real GetChecksForEntry selected. *)
 From Coq Require Import List String Ascii Arith Bool NArith.
-From PintV Require Import Common.Bytes Model.Yaml Model.YamlPosLines Model.Parser Model.Routing Run.C19.
+From PintV Require Import Common.Bytes Model.Yaml Model.YamlPosLines Model.Parser Model.YamlFits Model.Routing Run.C19.
 Import ListNotations.
 Open Scope string_scope.
 
@@ -16,8 +16,18 @@ Record obs_entry := {
 Record case := {
   c_base : C19.case;
   c_entries_strict : option (list obs_entry);    (* None = not comparable (pint comments present) or pipeline failed *)
-  c_entries_relaxed : option (list obs_entry)
+  c_entries_relaxed : option (list obs_entry);
+  c_lone_cr : bool                               (* the file has a CR not followed by LF (known finding C02-lone-cr) *)
 }.
+
+(** The hypothesis of the theorems C02_lines_* (Properties/C02.v), checked on the forest yaml.v3 actually returned:
+    every node coordinate and the yaml error line (if any) are inside the file, T = number of lines the content
+    reader counted.  The one class of real files where it fails is the open known finding C02-lone-cr. *)
+Definition hyp_fits (c : case) : bool :=
+  let b := c_base c in
+  let T := List.length (c_lines b) in
+  (docs_fit T (c_docs b) &&
+   match c_yerr b with Some l => (Nat.leb 1 l && Nat.leb l T)%bool | None => true end)%bool.
 
 Definition kind_of (r : rule) : nat :=
   match r_body r with Alerting _ _ _ _ _ _ => 1 | Recording _ _ _ => 2 | NoBody => 0 end.
@@ -45,6 +55,7 @@ Definition entries_diff (f : file) (obs : list obs_entry) : option string :=
 
 Definition check (c : case) : list string :=
   let b := c_base c in
+  (if (c_lone_cr c || hyp_fits c)%bool then [] else ["hypothesis-fits"]) ++
   C19.check b ++
   (match c_entries_strict c with
    | Some obs => match entries_diff (run_strict (c_thanos b) (c_lines b) (c_docs b) (c_yerr b)) obs with
